@@ -10,8 +10,8 @@ Parameters (opaque to the model, see `Cfg`):
 * `emoji`    — `none` for `emoji=False`, `some lookup` for `emoji=True` where
                `lookup name = EMOJI.get(name.lower())`;
 * `isSpace`  — `str.isspace` / regex `\s` of the running Python;
-* `sortSpans`— CODE VARIANT FLAG.  `true` = today's `text.spans = sorted(spans)` (pre-finding F8);
-               `false` = the repaired code, which keeps one span slot per opening tag, in opening order.
+* `sortSpans`— CODE VARIANT FLAG.  `true` = the `text.spans = sorted(spans)` of rich 9.10.0 as found (pre-finding F8);
+               `false` = the repaired code (fix 623ba68, what /repo contains now), which keeps one span slot per opening tag, in opening order.
 -/
 namespace RichModel.Markup
 
@@ -211,7 +211,8 @@ structure Cfg where
   sortSpans : Bool
 
 /-- an entry of `style_stack`: (number of tags opened before this one, `len(text)` when it was
-opened, the normalized tag).  Today's code keeps only the last two components. -/
+opened, the normalized tag).  rich 9.10.0 as found kept only the last two components; since fix 623ba68 the code in
+/repo keeps all three (`(len(spans), len(text), normalized_tag)`). -/
 structure Ent where
   idx : Nat
   start : Nat
@@ -222,7 +223,7 @@ structure St where
   text : List Char
   /-- `style_stack`, head = top -/
   stack : List Ent
-  /-- `spans` of today's code: in closing order -/
+  /-- `spans` of the as-found code (`sortSpans = true`): in closing order -/
   closed : List Span
   /-- `spans` of the repaired code: one slot per opening tag, filled when the tag is closed -/
   slots : List (Option Span)
